@@ -64,3 +64,8 @@ claim("C11",
       "Generated profiles (1..3 chromosomes, each a clean step between 0 and -1 / +0.585 / +1 in either order with 100..400 bins per side, or a flat control with or without a centromere gap; noise sd 0.01..0.1, weights 0.5..1, random bin sizes and spacing) are segmented; each stepped chromosome must give exactly two segments with the breakpoint within 5 bins and both means within 0.1, each flat arm exactly one segment.",
       "Trusted: the noise generator (numpy default_rng seeded from the case); statistical claim decided per noise realisation (0 failures in 16 000 at the registered generator); hmm / hmm-tumor outside the claim; cbs needs R (absent).",
       "DESIGN.md 5/C11")
+claim("C08",
+      "property-based testing (Hypothesis): differential reads of one abstract table rendered in every format by the harness + write/read/write round trips",
+      "Generated abstract region tables (unsorted, start 0, duplicates, natural-vs-lexical chromosome orders, exotic contigs, extreme floats, 1..4 SEG samples) are rendered by the harness in 12 formats and read back: coordinates must be the abstract 0-based half-open rows, sorted, and read_auto must agree with the explicit reader; tab (cnvlib.read), bed3, bed4, interval, text and export seg -> parse_seg round trips must return the sorted table (integers exact, floats to 6 digits) and a second write must be byte-identical.",
+      "Trusted: the harness renderers (written from the published format conventions); names/labels start with a letter or are plain integers; order between exotic contigs not asserted; one open finding (negative zero in an all-integral float column) excluded by signature.",
+      "DESIGN.md 5/C08")
